@@ -3,6 +3,7 @@ import OdcGeo.Model.C12
 import OdcGeo.Model.C13Nd
 import OdcGeo.Model.C13Kw
 import OdcGeo.Model.C13Glue
+import OdcGeo.Model.C12Gi
 namespace OdcGeo.C13.Drv
 open OdcGeo OdcGeo.IO OdcGeo.C13
 
@@ -302,6 +303,42 @@ def run (args : List String) : Option String :=
     pure (match fillFloat p v with
       | .nan => "n"
       | .num q => fmtRat q)
+  | ["chunksh", H, W, sy, sx, arg] => do
+    -- the destination tiling with the error classes of /repo HEAD (GeoboxTiles refuses non-adding chunk tuples: ValueError)
+    let H ← parseNat? H; let W ← parseNat? W
+    let sy ← parseList? parseNat? sy; let sx ← parseList? parseNat? sx
+    let arg ← parseChunkArg? arg
+    pure (fmtGRes fmtTilings (dstTilingsH H W sy sx arg))
+  | ["ieee", p, emin, emax, v] => do
+    -- a nodata converted to a binary float format: p significant bits, normal exponents emin..emax
+    let p ← parseNat? p; let emin ← parseInt? emin; let emax ← parseInt? emax; let v ← parseRaw? v
+    pure (match roundIEEE p emin emax v with
+      | .nan => "n"
+      | .inf false => "inf"
+      | .inf true => "-inf"
+      | .fin q => fmtRat q)
+  | ["dsplan", vars] => do
+    -- `name:T|F,...`: T = the variable has a geobox
+    let vs ← (vars.splitOn ",").mapM fun e => match e.splitOn ":" with
+      | [n, b] => (parseBool? b).map fun b => (n, b)
+      | _ => none
+    pure (",".intercalate ((dsPlan vs).map fun p => s!"{p.1}:{p.2}"))
+  | ["gideps", S, D, sh, sw, dh, dw, sy, sx, arg] => do
+    -- `GeoboxTiles(d_gbox, chunks).grid_intersect(GeoboxTiles(s_gbox, (sy, sx)))` on the same-CRS general path through the
+    -- C12Gi model (footprints of `polygon_from_transform`, convex disjointness); `arg` as for `chunks`
+    let S ← parseAff? S; let D ← parseAff? D
+    let sh ← parseNat? sh; let sw ← parseNat? sw; let dh ← parseNat? dh; let dw ← parseNat? dw
+    let sy ← parseList? parseNat? sy; let sx ← parseList? parseNat? sx
+    let arg ← parseChunkArg? arg
+    let t2 : C04.Tiling2 := match arg with
+      | .default => ⟨.reg (dh : Int) (chunkSize sy : Nat), .reg (dw : Int) (chunkSize sx : Nat)⟩
+      | .pair cy cx => ⟨.reg (dh : Int) cy, .reg (dw : Int) cx⟩
+      | .var ys xs => ⟨.var (ys.map Int.ofNat), .var (xs.map Int.ofNat)⟩
+    let dst : C12.TGB := ⟨some 1, true, D, ⟨dh, dw, t2⟩⟩
+    let src : C12.TGB := ⟨some 1, true, S, ⟨sh, sw, ⟨.var (sy.map Int.ofNat), .var (sx.map Int.ofNat)⟩⟩⟩
+    pure (fmtRes (fun g => if g.isEmpty then "-" else "|".intercalate (g.map fun e =>
+      s!"{e.1.1}.{e.1.2}=" ++ "+".intercalate (e.2.map fun i => s!"{i.1}.{i.2}")))
+      (C12.gridIntersectSameCrs dst src))
   | "warp" :: rest => do
     -- `_rio_reproject` on a caller buffer (no NaN default); chunk fields unused
     let x ← parseCommon? rest
